@@ -5,7 +5,7 @@
 # line per check: DETECTED / MISSED / INCONCLUSIVE. Everything lives under /tmp/vpmut and is removed.
 set -u
 NAME=$1; CHANGE=$2; shift 2
-ROOT=/tmp/vpmut
+ROOT=${VPMUT_ROOT:-/tmp/vpmut}
 WT=$ROOT/repo-$NAME
 mkdir -p $ROOT
 if [ ! -d $ROOT/harness ]; then
